@@ -35,7 +35,18 @@ GUARDS = [
     ("GridLaws", "MC_GridLaws_bug_law2.cfg", "AtLaw"),
     ("GridLaws", "MC_GridLaws_bug_law3.cfg", "ClampLaw"),
     ("GridLaws", "MC_GridLaws_bug_law4.cfg", "ResizeLaw"),
+    # extension round: the grid object machine
+    ("GridObjMC", "MC_GridObj_bug_swap.cfg", "Refines"),
+    ("GridObjMC", "MC_GridObj_bug_move.cfg", "Refines"),
+    ("GridObjMC", "MC_GridObj_bug_offset.cfg", "Refines"),
+    ("GridObjMC", "MC_GridObj_bug_law.cfg", "Laws"),
 ]
+
+
+# record kinds / grid object operations that are entirely outside the statement of C08 (observed only, see
+# spec/GridJudge.tla); OBJ_IN_SCOPE must agree with ObjInScope there
+OBSERVED_KINDS = ("interp", "spiral_grid")
+OBJ_IN_SCOPE = ("obj_write_at", "obj_resize_assign", "obj_fill")
 
 
 def build():
@@ -49,14 +60,34 @@ def signature(b):
 def inputs_of(rec):
     """the input fields of a record (what replay needs)"""
     keys = ("f", "N", "T", "via", "min", "sup", "dim", "gsize", "gen", "c", "size", "kind", "nsize", "igen", "rv",
-            "fa", "fb", "sizes", "gens", "co", "fgen")
+            "fa", "fb", "sizes", "gens", "co", "fgen", "q", "o", "d")
     return {k: rec[k] for k in keys if k in rec}
+
+PID = "C08"
+
+
+def split_why(why):
+    """(reasons inside the statement of the property, observed-only reasons without the obs: prefix)"""
+    return [w for w in why if not w.startswith("obs:")], [w[4:] for w in why if w.startswith("obs:")]
+
+
+def observe(ctx, op, obs, line):
+    """a disagreement outside the statement of the property: recorded in the evidence
+    (coverage.observations) and in the log, never a rejected event"""
+    o = ctx.extra.setdefault("observations", {})
+    key = "%s:%s:%s" % (PID, op, "+".join(sorted(obs)))
+    e = o.setdefault(key, {"count": 0, "example": line[:700]})
+    e["count"] += 1
+    if e["count"] == 1:
+        vlib.log("OBSERVED (outside the statement of %s, not a violation): %s" % (PID, key))
 
 
 def judge_light(ctx, module, cfg, trace_path, nchunks=48, par=8, xmx="1200m", timeout=1500):
     """vlib.judge_trace with small JVM heaps and bounded parallelism (the machine is shared): the
     record file is split on line boundaries, every chunk is judged by its own single-worker TLC.
     Returns the rejected records {l (global 1-based line), op, why[]}."""
+    nlines = sum(1 for _ in open(trace_path))
+    nchunks = max(2, min(nchunks, nlines // 3000))
     chunks = vlib.split_file(trace_path, nchunks)
 
     def one(ch):
@@ -72,7 +103,19 @@ def judge_light(ctx, module, cfg, trace_path, nchunks=48, par=8, xmx="1200m", ti
             b["l"] = b["l"] + first
             bad.append(b)
         if vd["nbad"] > len(vd["bad"]):
-            bad.append({"l": bad[-1]["l"], "op": bad[-1]["op"], "why": ["more-rejected-records-than-listed"]})
+            # RecordLoop lists at most 300 rejected records per run: judge this chunk again in pieces
+            # of 250 records so that nothing (in particular nothing in scope) is dropped
+            ls = open(p).read().splitlines()
+            bad, gen = [], r.generated
+            for k in range(0, len(ls), 250):
+                q = "%s.sub%d" % (p, k)
+                with open(q, "w") as fh:
+                    fh.write("\n".join(ls[k:k + 250]) + "\n")
+                b2, g2 = one((q, first + k))
+                os.unlink(q)
+                bad += b2
+                gen += g2
+            return bad, gen
         return bad, r.generated
     res = vlib.parallel(one, chunks, workers=par)
     bad = []
@@ -101,25 +144,69 @@ def judge_file(ctx, path, what, rc, out):
         kind = {66: "sanitizer", 67: "crash", 68: "hang", 124: "timeout"}.get(rc, "exit%d" % rc)
         san = re.search(r"(ERROR: \w+Sanitizer: [^\n]*|runtime error: [^\n]*|Assertion [^\n]*)", out)
         payload = {"partial_line": tail}
-        if tail:
+        if tail and tail.startswith('{"f":"obj"'):
+            try:
+                cur = json.loads((tail[:tail.index(',"pre":')] if ',"pre":' in tail else tail) + "}")
+                # no "pre" yet: the abort happened while the driver observed the objects BEFORE the operation
+                op = "obj_" + cur["op"] if ',"pre":' in tail else "obj_observe_before_" + cur["op"]
+                hist = obj_script(lines, len(lines)) if lines and '"h":%d,' % cur["h"] in lines[-1] else []
+                payload["script"] = hist + [{k: cur[k] for k in ACTION_KEYS}]
+            except (ValueError, KeyError):
+                pass
+        elif tail:
             try:
                 payload["record"] = inputs_of(json.loads(re.sub(r",\s*$", "", tail) + "}"))
             except ValueError:
                 pass
-        ctx.reject("C08:%s:%s" % (op, kind), "%s during %s (%s): %s" % (kind, op, what, san.group(1) if san else out[-300:]), payload)
+        if op in OBSERVED_KINDS or (op.startswith("obj_") and op not in OBJ_IN_SCOPE):
+            observe(ctx, op, [kind], tail or "")
+        else:
+            ctx.reject("C08:%s:%s" % (op, kind), "%s during %s (%s): %s" % (kind, op, what, san.group(1) if san else out[-300:]), payload)
         with open(path, "w") as f:
             f.write("\n".join(lines) + ("\n" if lines else ""))
     if not lines:
         return lines
     bad = judge_light(ctx, JUDGE, JUDGE_CFG, path)
     ctx.evaluations += len(lines)
+    if not hasattr(ctx, "unexplained"):
+        ctx.unexplained = set()
     for b in bad:
+        ctx.unexplained.add(lines[b["l"] - 1])
+        ins, obs = split_why(b["why"])
+        if obs:
+            m = re.match(r'\{"f":"obj".*?"op":"(\w+)"', lines[b["l"] - 1][:120])
+            observe(ctx, "obj_" + m.group(1) if m else b["op"], obs, lines[b["l"] - 1])
+        if not ins:
+            continue
+        b = dict(b, why=ins)
         if "HARNESS-PRECONDITION" in b["why"]:
             raise vlib.Infra("harness record outside its own input space at line %d of %s: %s" % (b["l"], path, lines[b["l"] - 1][:300]))
         rec = json.loads(lines[b["l"] - 1])
+        if rec.get("f") == "obj":
+            ctx.reject(signature({"op": "obj_" + rec["op"], "why": b["why"]}),
+                       "%s: GridObj.tla cannot explain %s (%s); transition: %s" % (what, rec["op"], ",".join(b["why"]), lines[b["l"] - 1][:700]),
+                       {"script": obj_script(lines, b["l"]), "observed": rec})
+            continue
         ctx.reject(signature(b), "%s: Grid.tla cannot explain %s (%s); record: %s" % (
             what, b["op"], ",".join(b["why"]), lines[b["l"] - 1][:500]), {"record": inputs_of(rec), "observed": rec})
     return lines
+
+
+ACTION_KEYS = ("op", "d", "s", "size", "v", "gen", "p", "k")
+
+
+def obj_script(lines, lineno):
+    """the operations of the history containing 1-based line `lineno`, up to and including it"""
+    last = json.loads(lines[lineno - 1])
+    ops = []
+    j = lineno - 1
+    while j >= 0:
+        r = json.loads(lines[j])
+        if r.get("f") != "obj" or r["h"] != last["h"]:
+            break
+        ops.append({k: r[k] for k in ACTION_KEYS})
+        j -= 1
+    return ops[::-1]
 
 
 def ext_class(e):
@@ -134,6 +221,14 @@ def count_classes(ctx, lines):
             rel = tuple("<" if a < b else ("=" if a == b else ">") for a, b in zip(r["min"], r["sup"]))
             wid = tuple(ext_class(max(b - a, 0)) for a, b in zip(r["min"], r["sup"]))
             ctx.count_class((f, r["N"], r.get("T", ""), r.get("c", ""), rel, wid))
+        elif f == "obj":
+            kinds = tuple(o["k"] for o in r["pre"])
+            shape = tuple(ext_class(e) for e in r["pre"][r["d"] - 1].get("gsize", []))
+            ctx.count_class((f, r["op"], kinds, shape, r["d"] == r["s"], r["ret"]))
+        elif f == "interp":
+            ctx.count_class((f, r["N"], tuple(q % 4 for q in r["q"]), tuple(ext_class(e) for e in r["gsize"])))
+        elif f == "spiral_grid":
+            ctx.count_class((f, tuple(ext_class(e) for e in r["gsize"]), r["d"], tuple(0 <= o < e for o, e in zip(r["o"], r["gsize"]))))
         elif f in ("resize",):
             ctx.count_class((f, r["N"], r["rv"], tuple(ext_class(e) for e in r["size"]),
                              tuple("<" if a < b else ("=" if a == b else ">") for a, b in zip(r["size"], r["nsize"]))))
@@ -151,16 +246,21 @@ def corruptions(recs):
     """(corrupted record, reason the judge must give) - built from real records"""
     out = []
 
+    cur = [None]
+    cnt = {}
+    PER_KEY = 4    # several candidate records per kind: one accepted corruption must not fail the guard
+
     def mut(r, fn, why):
         r = copy.deepcopy(r)
         fn(r)
-        out.append((r, why))
+        out.append((r, why, cur[0]))
 
-    done = set()
-    for r in recs:
+    def _one(r):
         f = r["f"]
-        if f in done:
-            continue
+        key = ("obj", r["op"]) if f == "obj" else f
+        if cnt.get(key, 0) >= PER_KEY:
+            return
+        cur[0] = key
         if f in ("pos_range", "whole_range", "pos_ref_range", "whole_ref_range") and len(r["vis"]) >= 3:
             mut(r, lambda x: x["vis"].reverse(), "visited-sequence")
             mut(r, lambda x: (x["vis"].pop(), x.get("vals", [0]).pop()), "visited-sequence")
@@ -168,10 +268,10 @@ def corruptions(recs):
             mut(r, lambda x: x["vis"].__setitem__(1, x["vis"][0]), "visited-sequence")
             if "vals" in r:
                 mut(r, lambda x: x["vals"].__setitem__(1, x["vals"][1] + 1), "element-at-position")
-            done.add(f)
+            cnt[key] = cnt.get(key, 0) + 1
         elif f == "offset" and len(r["offs"]) >= 3:
             mut(r, lambda x: x["offs"].__setitem__(1, x["offs"][2]), "offset-value")
-            done.add(f)
+            cnt[key] = cnt.get(key, 0) + 1
         elif f in ("construct", "resize", "map", "apply", "fill") and len(r["flat"]) >= 3 and len(set(r["flat"])) > 1:
             def sw(x):
                 i = next(k for k in range(len(x["flat"]) - 1) if x["flat"][k] != x["flat"][k + 1])
@@ -179,44 +279,128 @@ def corruptions(recs):
             mut(r, sw, "storage-order")
             mut(r, lambda x: x["cells"][1].__setitem__(-1, x["cells"][1][-1] + 1), "cell-value")
             mut(r, lambda x: x["gsize"].__setitem__(0, x["gsize"][0] + 1), "result-size")
-            done.add(f)
+            cnt[key] = cnt.get(key, 0) + 1
         elif f in ("clamped_min", "clamped_sup", "clamped_sup_signed") and any(e > 0 for e in r.get("size", [1])):
             mut(r, lambda x: x["rs"][-1].__setitem__(0, x["rs"][-1][0] + 1), f)
-            done.add(f)
+            cnt[key] = cnt.get(key, 0) + 1
         elif f == "at" and 1 in r["some"]:
             i = r["some"].index(1)
             mut(r, lambda x: x["some"].__setitem__(i, 0), "at_optional")
             mut(r, lambda x: x["valc"].__setitem__(i, x["valc"][i] + 1), "at_optional-const")
             j = len(r["some"]) - 1
             mut(r, lambda x: (x["some"].__setitem__(j, 1)), "at_optional")
-            done.add(f)
+            cnt[key] = cnt.get(key, 0) + 1
+        elif f == "interp":
+            mut(r, lambda x: x.__setitem__("r16", x["r16"] + 1), "interpolate")
+            cnt[key] = cnt.get(key, 0) + 1
+        elif f == "spiral_grid" and len(r["hits"]) >= 3:
+            mut(r, lambda x: (x["hits"].pop(), x["vals"].pop()), "cells-within-distance")
+            mut(r, lambda x: x["vals"].__setitem__(0, x["vals"][0] + 1), "element-at-position")
+            mut(r, lambda x: (x["hits"].reverse(), x["vals"].reverse()), "distance-decreases")
+            cnt[key] = cnt.get(key, 0) + 1
+        elif f == "obj":
+            d = r["d"] - 1
+            post = r["post"][d]
+            if r["op"] == "output" and len(r["text"]) > 4:
+                mut(r, lambda x: x["text"].__setitem__(2, x["text"][2] + 1), "output-text")
+                mut(r, lambda x: x["text"].pop(1), "output-text")
+                cnt[key] = cnt.get(key, 0) + 1
+            elif r["op"] == "write_at" and r["ret"] == 1:
+                mut(r, lambda x: x.__setitem__("ret", 0), "returned-flag")
+                cnt[key] = cnt.get(key, 0) + 1
+            elif r["op"] == "destroy":
+                mut(r, lambda x: x["post"].__setitem__(d, x["pre"][d]), "slot-kind")
+                cnt[key] = cnt.get(key, 0) + 1
+            elif post.get("k") == "live" and len(post["flat"]) >= 2 and r["op"] not in ("output", "write_at") and (
+                    len(set(post["flat"])) > 1 or r["op"] == "ctor_value"):
+                def sw(x):
+                    fl = x["post"][d]["flat"]
+                    i = next(k for k in range(len(fl) - 1) if fl[k] != fl[k + 1])
+                    fl[i], fl[i + 1] = fl[i + 1], fl[i]
+                if len(set(post["flat"])) > 1:
+                    mut(r, sw, "storage-order")
+                else:
+                    mut(r, lambda x: x["post"][d]["flat"].__setitem__(1, x["post"][d]["flat"][1] + 1), "storage-order")
+                mut(r, lambda x: x["post"][d]["cells"][0].__setitem__(2, x["post"][d]["cells"][0][2] + 1), "cell-value")
+                mut(r, lambda x: x["post"][d]["gsize"].__setitem__(0, x["post"][d]["gsize"][0] + 1), "result-size")
+                cnt[key] = cnt.get(key, 0) + 1
         elif f == "in_range" and 1 in r["inr"]:
             i = r["inr"].index(1)
             mut(r, lambda x: x["inr"].__setitem__(i, 0), "in_range")
             mut(r, lambda x: x["ird"].__setitem__(len(x["ird"]) - 1, 1), "in_range_dim")
-            done.add(f)
+            cnt[key] = cnt.get(key, 0) + 1
+    for r in recs:
+        try:
+            _one(r)
+        except (IndexError, KeyError, ValueError, StopIteration):
+            pass    # this record is not a usable candidate
     return out
 
 
+def check_corruptions(ctx, cor, bad):
+    """Per (kind of record, expected reason): at least one of the corrupted candidate records must be
+    rejected by the judge with that reason.  A single candidate on which the corruption happens to leave
+    a value the specification also accepts does not fail the guard; only a kind/reason for which NO
+    candidate is rejected does (exit 2)."""
+    groups = {}
+    for i, (rec, why, key) in enumerate(cor):
+        got = bad.get(i + 1, [])
+        ok = why in got or "obs:" + why in got
+        g = groups.setdefault((str(key), why), [0, 0, rec, got])
+        g[0] += 1
+        g[1] += 1 if ok else 0
+    failed = [(k, g) for k, g in groups.items() if g[1] == 0]
+    if failed:
+        k, g = failed[0]
+        raise vlib.Infra("sensitivity guard: none of the %d corrupted %s records (expected reason %s) was rejected, e.g. judged %s: %s" % (
+            g[0], k[0], k[1], g[3], json.dumps(g[2])[:300]))
+    rejected = sum(g[1] for g in groups.values())
+    ctx.extra["judge_sensitivity"] = {"corrupted_records": len(cor), "rejected_with_expected_reason": rejected,
+                                      "groups": len(groups), "every_group_rejected": True, "all_rejected": rejected == len(cor)}
+
+
 def sensitivity_guard(ctx, lines):
-    recs = [json.loads(l) for l in lines[::7][:30000]]
+    """corrupt copies of records the judge currently explains completely (records with any reason - a
+    violation or an observation - are no candidates); a kind whose records are all unexplained is skipped"""
+    unexpl = getattr(ctx, "unexplained", set())
+    # candidates: a stride over the whole log plus an even spread of about 600 records of every kind (the kinds that are
+    # driven last would otherwise be missed in the thorough tier)
+    per = {}
+    for l in lines:
+        per.setdefault(l[6:l.index('"', 6)], []).append(l)
+    spread = []
+    for k, v in per.items():
+        want = 6000 if k == "obj" else 600
+        spread += v[::max(1, len(v) // want)][:want + 50]
+    cand = [l for l in lines[::7][:30000] + spread if l not in unexpl]
+    recs = [json.loads(l) for l in cand]
     cor = corruptions(recs)
     kinds = set(c[0]["f"] for c in cor)
-    need = {"pos_range", "whole_range", "pos_ref_range", "whole_ref_range", "offset", "construct", "resize", "map",
+    objops = set(c[0]["op"] for c in cor if c[0]["f"] == "obj")
+    touched = set()
+    for l in unexpl:
+        r = json.loads(l)
+        touched.add(r["f"])
+        if r["f"] in ("obj", "obj_stop"):
+            touched.add("obj")
+            touched.add("op:" + r["op"])
+    needops = {"ctor_value", "ctor_fn", "ctor_rows", "copy_ctor", "move_ctor", "copy_assign", "move_assign", "swap", "write_unsafe",
+               "write_at", "write_iter", "resize_assign", "fill", "output", "destroy"}
+    missops = {o for o in needops - objops if "op:" + o not in touched}
+    if missops:
+        raise vlib.Infra("sensitivity guard: no corruptible grid-object transition for %s" % sorted(missops))
+    need = {"obj", "interp", "spiral_grid", "pos_range", "whole_range", "pos_ref_range", "whole_ref_range", "offset", "construct", "resize", "map",
             "apply", "fill", "clamped_min", "clamped_sup", "clamped_sup_signed", "at", "in_range"}
-    if kinds != need:
-        raise vlib.Infra("sensitivity guard: no corruptible record for %s" % sorted(need - kinds))
+    missing = need - kinds - touched
+    if missing:
+        raise vlib.Infra("sensitivity guard: no corruptible record for %s" % sorted(missing))
     p = os.path.join(ctx.workdir, "corrupted.ndjson")
     vlib.write_ndjson(p, [c[0] for c in cor])
-    r = vlib.tlc(JUDGE, JUDGE_CFG, workers=1, env={"TRACE": p}, tag="GridJudge_sens", xmx="1g")
-    v = vlib._verdict_lines(r.out).get("VERDICT")
-    if not v:
-        raise vlib.Infra("sensitivity guard: no verdict\n" + r.out[-2000:])
-    bad = {b["l"]: b["why"] for b in v[-1]["bad"]}
-    for i, (rec, why) in enumerate(cor):
-        if why not in bad.get(i + 1, []):
-            raise vlib.Infra("sensitivity guard: corrupted %s record (expected reason %s) was judged %s" % (rec["f"], why, bad.get(i + 1)))
-    ctx.extra["judge_sensitivity"] = {"corrupted_records": len(cor), "all_rejected": True}
+    # (RecordLoop lists at most 300 rejected records per run; judge_light re-judges in pieces of 250)
+    bad = {b["l"]: b["why"] for b in judge_light(ctx, JUDGE, JUDGE_CFG, p, nchunks=4, par=4)}
+    check_corruptions(ctx, cor, bad)
+    ctx.extra["judge_sensitivity"]["kinds_skipped_because_unexplained"] = sorted((need - kinds) & touched) + sorted(
+        o for o in needops - objops if "op:" + o in touched)
 
 
 def run(ctx):
@@ -228,6 +412,12 @@ def run(ctx):
     vlib.tlc_mc(ctx, "GridLaws", "MC_GridLaws_n1.cfg", workers=2, xmx="2g")
     vlib.tlc_mc(ctx, "GridLaws", "MC_GridLaws_n2.cfg", workers=8, xmx="2g")
     vlib.tlc_mc(ctx, "GridLaws", "MC_GridLaws_n3.cfg" if thorough else "MC_GridLaws_n3q.cfg", timeout=3000, xmx="2g")
+    # extension round: the grid object machine, abstract operations and member-level transcription in lock-step
+    vlib.tlc_mc(ctx, "GridObjMC", "MC_GridObj_deep.cfg" if thorough else "MC_GridObj.cfg", workers=8, xmx="2g")
+    r = vlib.tlc_mc(ctx, "GridObjMC", "MC_GridObjScripts.cfg", workers=4, xmx="2g")
+    scripts = vlib._verdict_lines(r.out).get("SCRIPT", [])
+    if len(scripts) < 3000:
+        raise vlib.Infra("grid object script emission produced only %d scripts" % len(scripts))
 
     def guard(g):
         mod, cfg, inv = g
@@ -248,9 +438,26 @@ def run(ctx):
         for k in (len(lines) // 3, len(lines) // 2, len(lines) - 5):
             s = lines[k]
             ctx.sample(json.loads(s) if len(s) < 1500 else {"truncated_record": s[:1500]})
+    # 2b. the grid object machine: spec -> code (one script per generated transition of the small
+    #     model) and code -> spec (seeded random histories)
+    spath = os.path.join(ctx.workdir, "obj_scripts.ndjson")
+    vlib.write_ndjson(spath, scripts)
+    opath = os.path.join(ctx.workdir, "obj_replayed.ndjson")
+    rc2, out2 = vlib.run_harness(binary, ["objreplay", spath, opath], timeout=900)
+    olines = judge_file(ctx, opath, "TLC-generated grid object script", rc2, out2)
+    ctx.traces_validated += len(scripts)
+    nh, ml = (30000, 14) if thorough else (3000, 14)
+    rpath = os.path.join(ctx.workdir, "obj_recorded.ndjson")
+    rc3, out3 = vlib.run_harness(binary, ["objrecord", rpath, ctx.seed, nh, ml], timeout=900)
+    rlines = judge_file(ctx, rpath, "random grid object history", rc3, out3)
+    ctx.traces_validated += nh
+    count_classes(ctx, olines + rlines)
+    if scripts:
+        ctx.sample({"tlc_grid_object_script": scripts[len(scripts) // 2]})
+    if lines:
         # 3. the judge rejects corrupted copies of real records
-        if rc == 0 and not ctx.violations:
-            sensitivity_guard(ctx, lines)
+        if rc == 0 and rc2 == 0 and rc3 == 0 and not ctx.violations:
+            sensitivity_guard(ctx, lines + rlines)
     ctx.exhaustive = True
     ctx.rule = ("exhaustive enumeration by the harness: N in 1..3, extents 0..4 (quick: 0..3 for N=3), (min,sup) components 0..5 "
                 "(quick: 0..3 for N=3; pos_ref_range: all min,sup <= size), at_optional probes 0..extent+2 plus the two largest "
@@ -267,6 +474,18 @@ def run(ctx):
 
 def replay(ctx, payload):
     binary = build()
+    script = payload["payload"].get("script")
+    if script:
+        spath = os.path.join(ctx.workdir, "replay_script.ndjson")
+        vlib.write_ndjson(spath, [script])
+        opath = os.path.join(ctx.workdir, "replay_out.ndjson")
+        rc, out = vlib.run_harness(binary, ["objreplay", spath, opath], timeout=300)
+        judge_file(ctx, opath, "replay", rc, out)
+        ctx.traces_validated += 1
+        ctx.count_class("replay")
+        ctx.count_class("replay2")
+        ctx.rule = "replay of one saved grid object history"
+        return
     rec = payload["payload"].get("record")
     if not rec:
         raise vlib.Infra("replay file carries no record")
